@@ -1,28 +1,12 @@
+//! Kani harnesses over the real vibrato code.  Each harness is registered for the driver by a
+//! `//@ <name> {json}` line (see /verif/check).
 #![allow(dead_code)]
+#![allow(unused_imports)]
+#![allow(clippy::all)]
 extern crate alloc;
-use vibrato::verif_hooks::*;
 
-//@ c10_charinfo_pack {"desc":"CharInfo::new accepts exactly the values that fit 18/8/1/1/4 bits and the accessors return them","bounds":"none: all u32 x u32 x bool x bool x u16","symbolic":"all five arguments","functions":["CharInfo::new","CharInfo::cate_idset","CharInfo::base_id","CharInfo::invoke","CharInfo::group","CharInfo::length"],"timeout":120}
-#[cfg(kani)]
-#[kani::proof]
-fn c10_charinfo_pack() {
-    let cate: u32 = kani::any();
-    let base: u32 = kani::any();
-    let invoke: bool = kani::any();
-    let group: bool = kani::any();
-    let length: u16 = kani::any();
-    match CharInfo::new(cate, base, invoke, group, length) {
-        Some(ci) => {
-            assert!(cate < (1 << 18) && base < 256 && length < 16);
-            assert!(ci.cate_idset() == cate);
-            assert!(ci.base_id() == base);
-            assert!(ci.invoke() == invoke);
-            assert!(ci.group() == group);
-            assert!(ci.length() == length);
-            kani::cover!(length == 15 && base == 255);
-        }
-        None => {
-            assert!(cate >= (1 << 18) || base >= 256 || length >= 16);
-        }
-    }
-}
+pub mod util;
+pub mod exp;
+pub mod c02;
+pub mod c03;
+pub mod c10;
